@@ -297,7 +297,13 @@ class DictReader:
 
                 eval_successful: bool = False
                 eval_result: V | None = None
-                if "$" not in expression:
+                _plain_reference = item["expression"].strip()
+                if re.fullmatch(r"\$\w[\w\[\]]*", _plain_reference) and _plain_reference in references_resolved:
+                    # a plain reference holds the referenced value itself (value and type):
+                    # it is not sent through str() and eval(), which would e.g. turn the string 'e' into 2.718..
+                    eval_result = deepcopy(references_resolved[_plain_reference])
+                    eval_successful = True
+                elif "$" not in expression:
                     try:
                         eval_result = cast("V", eval(expression))  # noqa: S307
                         eval_successful = True
